@@ -197,7 +197,7 @@ def w_scan(arg):
 
     def rec_encrypt(self, data, key):
         out = orig(self, data, key)
-        calls.append((bytes(key), bytes(out[:self._nonce_bytes]), bytes(out)))
+        calls.append((bytes(key), bytes(out[:self.nonce_bits // 8]), bytes(out)))
         return out
     adapters.AEADCipherAdapterMixin.encrypt = rec_encrypt
     try:
@@ -395,7 +395,7 @@ def w_long(arg):
 
     def rec_encrypt(self, data, key):
         out = orig(self, data, key)
-        calls.append((bytes(key), bytes(out[:self._nonce_bytes])))
+        calls.append((bytes(key), bytes(out[:self.nonce_bits // 8])))
         return out
     adapters.AEADCipherAdapterMixin.encrypt = rec_encrypt
     try:
